@@ -355,7 +355,10 @@ def execute(op: dict, ldr, T, seed: int = 0):
         if name == "add_tomogram":
             ids_before = set(ldr.images.keys())
             newid = len(ids_before)
-            while newid in ids_before:
+            # the new tomogram is NAMED BY ITS CONTENT in the projection: its code must differ from the content codes of the
+            # tomograms already registered (which differ from the ids after add_loader / from_loaders), not only from the ids
+            codes_before = {_which_image(im, 1) for im in ldr.images.values()}
+            while newid in ids_before or newid in codes_before:
                 newid += 1
             res = ldr.add_tomogram(tomo(newid), T)
         elif name in ("add_loader", "from_loaders"):
